@@ -194,7 +194,8 @@ def object_shapes(nm: Namer) -> Dict[str, Callable[[T, Ctx], Optional[T]]]:
         return Obj(
             "dataclass",
             nm("O"),
-            (F("a_b", x), F("c", INT, alias="see", override=False), F("d", INT, alias="dee")),
+            # (e: the alias carried by the annotation, overridden by the class aliaser like any other)
+            (F("a_b", x), F("c", INT, alias="see", override=False), F("d", INT, alias="dee"), F("e", INT, alias="eee", alias_annotated=True, default="0", has_default=True, default_value=0)),
             class_aliaser="upper",
         )
 
